@@ -38,7 +38,8 @@ float16 arrays (values on that grid), big-endian arrays, integer / bool arrays, 
 (strided and column views, Fortran order, negative strides, read-only, unaligned), python lists / tuples of
 python floats, ints and numpy scalars, pandas objects, and a single point / distance as a 1-d object, scalar or
 0-d array.  Every accepted representation must give, bit for bit, the float64 array that the same values give as
-a contiguous native float64 array; a difference is reported as a disagreement and decided by the interval goal of
+a contiguous native float64 array (except with a long double operand, which may be computed on in extended
+precision: only the bounds are required); a difference is reported as a disagreement and decided by the interval goal of
 the differing rows on the OBSERVED output (signature c14-accuracy:<fn>/input-<class>), and the goal is generated
 for at least one case per function and class anyway.  The values a container holds are compared with the source
 values in Coq (c14_repr_case: equal as rationals, source of its format, held of binary64); Props/C14.v proves that
@@ -1257,7 +1258,12 @@ def repr_checks(ctx):
         rows = []
         k = (c.fn, c.cls)
         if c.diff:
-            ctx.disagree("c14-repr:%s" % c.fn, c.case, {"representation": c.describe(), "differs": c.diff, "replay": c.replay()})
+            if any(r is not None and DTYPES[r[1]][2] == "wide-float" for r in c.reps.values()):
+                # an operand wider than float64 (long double) may be computed on in its own precision: the result
+                # need not be the float64 path's, only inside the bounds (decided by the goal below)
+                ctx.bump("repr_wide_float_not_bit_identical")
+            else:
+                ctx.disagree("c14-repr:%s" % c.fn, c.case, {"representation": c.describe(), "differs": c.diff, "replay": c.replay()})
             # decide by the accuracy goal of the differing rows whether the property fails on this input
             # (the first few cases of every function and class; the probes always)
             if c.kind == "probe" or per_class_diff.get(k, 0) < 3 * budget:
